@@ -979,7 +979,8 @@ namespace BitSerializer::Convert::Utf
 		}
 
 		[[nodiscard]] bool IsEnd() const noexcept {
-			return mStartDataPtr == mEndDataPtr && mInputStream.eof();
+			// No more data can be read when the stream is at the end or in a failed state
+			return mStartDataPtr == mEndDataPtr && !mInputStream.good();
 		}
 
 		[[nodiscard]] UtfType GetSourceUtfType() const noexcept {
@@ -1020,7 +1021,7 @@ namespace BitSerializer::Convert::Utf
 			const auto result = TUtf::Decode(reinterpret_cast<typename TUtf::char_type*>(mStartDataPtr), GetAlignedEndDataPtr<typename TUtf::char_type>(), outStr, mEncodingErrorPolicy, mErrorMark);
 			mStartDataPtr = reinterpret_cast<char*>(result.Iterator);
 			assert(mStartDataPtr <= mEndDataPtr);
-			if (mInputStream.eof())
+			if (!mInputStream.good())
 			{
 				// Handle uncompleted sequence at the end of file
 				if (result.ErrorCode == UtfEncodingErrorCode::UnexpectedEnd && Detail::HandleEncodingError(outStr, mEncodingErrorPolicy, mErrorMark))
